@@ -83,6 +83,7 @@ int main(int argc, char** argv)
         FILE* out = fopen(argv[2], "w");
         if (!out) return 2;
         vh_install(out);
+    setvbuf(out, NULL, _IOLBF, 0);      // a sanitizer abort does not flush stdio: every completed call must already be in the log
         long maxs = atol(argv[3]);
         for (long s = 0; s <= maxs; s++) {
             SimpleStringInternalCache* c = new SimpleStringInternalCache;
@@ -107,6 +108,7 @@ int main(int argc, char** argv)
     FILE* out = fopen(argv[3], "w");
     if (!in || !out) return 2;
     vh_install(out);
+    setvbuf(out, NULL, _IOLBF, 0);      // a sanitizer abort does not flush stdio: every completed call must already be in the log
     std::vector<size_t> bounds;
     for (int i = 4; i < argc; i++) bounds.push_back((size_t) atol(argv[i]));
 
